@@ -20,5 +20,9 @@ open BsVerif.Lines
 #print axioms C04_fn_to_addr_counterexample
 #print axioms C04_fn_to_addr_counterexample_same_address
 #print axioms closestPass_isStmtRow
+#print axioms closestPass_ne_of_stmtRow
 #print axioms C04_line_to_addrs_sound
+#print axioms C04_line_to_addrs_line_wins
+#print axioms C04_line_to_addrs_fallback
 #print axioms C04_line_to_addrs_counterexample
+#print axioms C04_line_to_addrs_counterexample_pe_lookahead
